@@ -108,10 +108,10 @@ func projectFrame(b []byte, thr int) (f frameRec, payloadSha string, total int, 
 }
 
 type frameStim struct {
-	Thr int   `json:"thr"`
-	ID  int32 `json:"id"`
-	N   int   `json:"n"`
-	Zero bool `json:"zero"` // all-zero payload (highly compressible) instead of pseudo-random
+	Thr  int   `json:"thr"`
+	ID   int32 `json:"id"`
+	N    int   `json:"n"`
+	Zero bool  `json:"zero"` // all-zero payload (highly compressible) instead of pseudo-random
 }
 
 func framePayload(rng *rand.Rand, n int, zero bool) []byte {
@@ -300,12 +300,12 @@ func frameRejudge(env *vk.Env, sc frameScenario) (sig, detail string, rejected b
 	}
 	lines := bytes.Split(bytes.TrimSpace(tr.Bytes()), []byte("\n"))
 	var ev struct {
-		K   string `json:"k"`
-		Err bool   `json:"err"`
-		Pan bool   `json:"panicked"`
-		F   frameRec `json:"f"`
+		K   string                   `json:"k"`
+		Err bool                     `json:"err"`
+		Pan bool                     `json:"panicked"`
+		F   frameRec                 `json:"f"`
 		H   struct{ Plen, Dlen int } `json:"h"`
-		Thr int `json:"thr"`
+		Thr int                      `json:"thr"`
 	}
 	json.Unmarshal(lines[v.HWM-1], &ev)
 	sig = "Frame trace rejected at " + ev.K
